@@ -104,3 +104,24 @@ func JoinLeave(n, at, steps int) *Scenario {
 	seed = append(seed, FairSeed(seq(n+1), steps, 5)...)
 	return &Scenario{Name: fmt.Sprintf("joinleave%d", n), Cfg: sim.Config{N: n}, Seed: seed, Asked: map[int]int{n: n - 1}}
 }
+
+// Laggards: n validators of which the last k are one-way laggards for a
+// while: after `warm` fair steps the first n-k gossip among themselves and
+// every laggard keeps pulling from them (so it creates events, witnesses
+// included, in every round) but nobody hears from it for `quiet` steps; then
+// everybody gossips fairly again. The laggards' witnesses of rounds that the
+// others have already processed arrive late, k of them per round.
+func Laggards(n, k, warm, quiet, steps int) *Scenario {
+	live := seq(n - k)
+	seed := FairSeed(seq(n), warm, 4)
+	for s := 0; s < quiet; s++ {
+		seed = append(seed, FairSeed(live, s+1, 4)[len(FairSeed(live, s, 4)):]...)
+		if s%2 == 1 {
+			for l := n - k; l < n; l++ {
+				seed = append(seed, Action{K: "P", A: l, B: (s/2 + l) % (n - k)})
+			}
+		}
+	}
+	seed = append(seed, FairSeed(seq(n), steps, 4)...)
+	return &Scenario{Name: fmt.Sprintf("laggards%d-%d", n, k), Cfg: sim.Config{N: n}, Seed: seed}
+}
